@@ -282,9 +282,14 @@ def oracle(cfg, evs, summ, ptimeout):
             bad.append(('c08:handler-alive', f'handler {hid} ({r["kind"]}) is still running at {summ["now"]}'))
         elif hid in inbody and r['outcome'] != 'cancelled':
             # its processing_timeout fired before it was done (before the loss, or while it was
-            # still reacting to the cancellation): the TaskTimeout path ends it, not a cancellation
+            # still reacting to the cancellation): the TaskTimeout path ends it, not a
+            # cancellation; likewise an asking handler whose own blocked send ran into
+            # max_send_delay at the very instant of the teardown (C15: TaskTimeout + abort)
             overrun = ptimeout is not None and r['done_at'] is not None \
                 and r['done_at'] >= r['arrived'] + ptimeout
+            if r['kind'] == 'K' and r['outcome'] == 'returned' \
+                    and r['done_at'] == r['start'] + summ['max_send_delay']:
+                overrun = True
             if not overrun:
                 bad.append(('c08:handler-not-cancelled',
                             f'handler {hid} ({r["kind"]}) was running when the connection was '
